@@ -21,6 +21,8 @@ Decided clause:
        cleared / forced in the local copy before any use) while each of the other 251 scalar bits
        can; bit 255 of the point cannot influence anything (masked by the decoder and by the
        low-order blocklist comparison) while each of the other 255 point bits can.
+  R5.5 (E12 known-bits) in the X25519 units `(hi << k) | lo` packings have provably bit-disjoint operands; the
+       loosely reduced output limbs of the assembly ladder are therefore repacked with `+`.
 NOT decided: RFC 7748 values, the ladder arithmetic, the BLAKE2b values, seeded key-pair values.
 """
 from .. import deps
@@ -77,6 +79,10 @@ def run(ctx, chk):
     kx_rule(prog, chk)
     inplace_rule(prog, chk)
     clamp_rule(ctx, prog, chk)
+    # R5.5: in the X25519 units limbs / words are packed with `|` only when provably bit-disjoint (the ladder's output limbs
+    # are only loosely reduced: repacking them needs `+`)
+    from .. import knownbits
+    knownbits.or_packing_rule(prog, chk, "R5.5", ("crypto_scalarmult/curve25519/",), floor=3)
 
 
 KX = {"crypto_kx_client_session_keys": {"own_sk": 3, "peer_pk": 4, "client_pk": 2, "server_pk": 4},
